@@ -75,7 +75,7 @@ func MatchScenario(t *rapid.T) sim.CScenario {
 	// hostile and foreign members
 	nx := rapid.IntRange(0, 4).Draw(t, "nextra")
 	for j := 0; j < nx; j++ {
-		it := sim.ReplyItem{Kind: pick(t, "xk", []string{"unknown", "nullid", "nonobject", "both", "neither", "strid", "fltid", "badversion", "extrafield", "note", "callback", "sameidreq", "sameidreq"}), N: 10 + j}
+		it := sim.ReplyItem{Kind: pick(t, "xk", []string{"unknown", "nullid", "nonobject", "both", "neither", "strid", "fltid", "badversion", "extrafield", "note", "callback", "sameidreq", "sameidreq", "sameidreqscalar", "sameidreqnover", "sameidreqextra"}), N: 10 + j}
 		if len(want) > 0 {
 			e := pick(t, "xe", want)
 			it.Op, it.I = e.op, e.i
@@ -89,6 +89,10 @@ func MatchScenario(t *rapid.T) sim.CScenario {
 		st := sim.CStep{Op: "reply", Items: items[:n:n], Array: n > 1 || rapid.IntRange(0, 3).Draw(t, "arr1") == 0}
 		st.Burst = rapid.IntRange(0, 9).Draw(t, "rburst") < 5
 		sc.Steps = append(sc.Steps, st)
+		if rapid.IntRange(0, 7).Draw(t, "emptyarr") == 0 {
+			// an empty array between the replies: nothing to deliver, nothing to break
+			sc.Steps = append(sc.Steps, sim.CStep{Op: "raw", Raw: engine.Bytes(pick(t, "emptyarrv", []string{"[]", " [ ]\n", "[\t]"})), Burst: rapid.Bool().Draw(t, "eburst")})
+		}
 		items = items[n:]
 		if rapid.IntRange(0, 5).Draw(t, "moreops") == 0 && k < 8 {
 			startOps(rapid.IntRange(1, 2).Draw(t, "nmore"))
@@ -184,7 +188,7 @@ func LifecycleScenario(t *rapid.T) sim.CScenario {
 		case roll < 96:
 			st = sim.CStep{Op: "close"}
 		default:
-			it := sim.ReplyItem{Kind: pick(t, "xk", []string{"unknown", "nullid", "nonobject", "neither", "strid", "badversion", "extrafield", "both", "sameidreq"}), N: 40 + s}
+			it := sim.ReplyItem{Kind: pick(t, "xk", []string{"unknown", "nullid", "nonobject", "neither", "strid", "badversion", "extrafield", "both", "sameidreq", "sameidreqscalar", "sameidreqnover", "sameidreqextra"}), N: 40 + s}
 			if len(open) > 0 {
 				// hostile members bear the id of a request that is still open
 				e := pick(t, "xe", open)
